@@ -68,6 +68,10 @@ CHECKS = {
   "reference-model monitor: model font -> independent Type 1 writer with independently drawn layout choices -> type1.Read, field-by-field comparison; writer and independent reader cross-checked on every case",
   "Model fonts (glyph sets with .notdef, contours of moves, lines and curves with integer or rational coordinates, non-zero side bearings, sbw, stems, stem3, hint replacement, dotsection, flex after a move, a line or a curve, seac composites, info strings over all bytes, FontMatrix/Private present or absent, four creation-date layouts) are written by an independent writer in every container (PFA with any hex layout, binary eexec, PFB with any segment split, unencrypted), with lenIV in {0,1,2,3,4,5,8,16}, RD/ND/NP or -| |- |, StandardEncoding or an explicit array, general or h/v-specialised commands, shortest or 5-byte numbers, rationals as `p q div`, arbitrary command runs (including whole charstrings) factored into nested subroutines, access decorations and Adobe-style OtherSubrs code. type1.Read's font is compared with the model in glyph set, absolute outlines (exact for integers, 1e-9 for rationals), widths, stems, the 256 encoding entries, FontInfo, FontMatrix, Private values with defaults, and creation date. Each generated file is first read by the harness's independent reader, which must see the model (self-check of the writer).",
   "Domain restrictions of DESIGN.md section 10: composites with asb = sbx(accent) = sbx(composite) and the base's width, only in StandardEncoding fonts; stem3 not mixed with other stems of that direction; stems not compared for glyphs with hint replacement and for composites."),
+ "C10": ("exploration", "DESIGN.md 11/C10",
+  "round-trip / idempotence monitor over reader-accepted inputs produced by the independent writer: F1~F2 under the documented tolerances, F2==F3 exactly, in all four formats",
+  "Inputs come from the independent Type 1 writer (not from the library's writer) with unusual but legal content - fractional widths and side bearings, sbw, staircases of equal fractional steps, absent FontName, fonts without .notdef, the empty glyph name, unusual regular characters in names, encodings naming absent glyphs, empty strings, version strings with line ends, % and parentheses, every accepted date layout and unparsable dates, real-valued or malformed Private entries, huge and tiny finite numbers, BlueScale within 1e-6 of its default - plus structure-aware mutations of the clear text. For every input type1.Read accepts, Write must succeed without panic or error in each format, Read(Write(F1)) must equal F1 up to widths rounded to integers, coordinates within 1/214 and BlueScale snapped to the default, and a second write/read cycle must change nothing at all.",
+  "Inputs whose F1 contains NaN/Inf are skipped. The exact boundary of the BlueScale snap (|x - 0.039625| = 1e-6) is not asserted."),
 }
 
 NOT_CLAIMED = {}
